@@ -13,6 +13,6 @@ def run(ctx):
         ctx.violation('translator of yy_flush_buffer() / yy_init_buffer() gave up: ' + err, {'error': err}, no_input=True)
     q1, q2, q3 = {'quick': (64, 48, 32), 'thorough': (600, 400, 200)}[ctx.tier]
     plan = [('trail', q1, 8), ('lineno', q3, 4), ('wrapbol', q2, 6), ('inputbol', q3, 6)]
-    return rtprop.run(ctx, THEOREMS + ['FlexVerif.C11Flush.flush_spec', 'FlexVerif.C11Flush.init_spec'], plan, 'exploration',
+    return rtprop.run(ctx, THEOREMS + ['FlexVerif.C11Flush.flush_spec', 'FlexVerif.C11Flush.init_spec', 'FlexVerif.C11Flush.restart_current', 'FlexVerif.C11Flush.restart_fresh', 'FlexVerif.C11FlushC99.restart99_current'], plan, 'exploration',
                       "anchors and trailing context: rule sets with ^, $, r/s (fixed and variable), yyatbol() logged after every match; rule sets for which flex prints 'dangerous trailing context' are skipped as the property allows" + '. Kernel-checked theorems about the abstract scanner (listed under obligations) + differential '
                       'correspondence of the real generated scanner (ASan/UBSan build) with that model on generated cases.')
